@@ -71,7 +71,7 @@ theorem length_upFrom (a m : Nat) : (upFrom a m).length = m := by
 
 theorem mem_upFrom {a m x : Nat} : x ∈ upFrom a m ↔ a ≤ x ∧ x < a + m := by
   induction m generalizing a with
-  | zero => simp [upFrom]; omega
+  | zero => simp [upFrom] <;> omega
   | succ m ih => simp only [upFrom, List.mem_cons, ih]; omega
 
 theorem getElem?_upFrom (a m k : Nat) (h : k < m) : (upFrom a m)[k]? = some (a + k) := by
@@ -236,9 +236,8 @@ theorem charIndexByHandle_eq (sh si : Nat) (c : CharDecl) (hw : c.handles.WF)
       by_cases h0 : cc = 0
       · simp [h0]; omega
       · simp [h0]; omega
-  unfold charEndHandle at hh
-  unfold charIndexByHandle charHandles
-  simp only [List.countP_cons, countP_upFrom]
+  simp only [charEndHandle] at hh
+  simp only [charIndexByHandle, charHandles, List.countP_cons, countP_upFrom]
   generalize (selectHandles sh c.handles).decl = D at *
   generalize (selectHandles sh c.handles).value = V at *
   generalize (selectHandles sh c.handles).cccd = C at *
@@ -247,27 +246,27 @@ theorem charIndexByHandle_eq (sh si : Nat) (c : CharDecl) (hw : c.handles.WF)
     by_cases h1 : h ≤ D
     · have a1 : ¬ D < h := by omega
       have a2 : ¬ V < h := by omega
-      simp [h1, a1, a2]; omega
+      simp [h1, a1, a2] <;> omega
     · have a1 : D < h := by omega
       have a2 : ¬ V < h := by omega
       have a3 : h ≤ V := by omega
-      simp [h1, a1, a2, a3]; omega
+      simp [h1, a1, a2, a3] <;> omega
   · simp only [hn, if_false] at hh
     by_cases h1 : h ≤ D
     · have a1 : ¬ D < h := by omega
       have a2 : ¬ V < h := by omega
-      simp [h1, a1, a2]; omega
+      simp [h1, a1, a2] <;> omega
     · by_cases h2' : h ≤ V
       · have a1 : D < h := by omega
         have a2 : ¬ V < h := by omega
-        simp [h1, h2', a1, a2]; omega
+        simp [h1, h2', a1, a2] <;> omega
       · by_cases h3 : h ≤ C
         · have a1 : D < h := by omega
           have a2 : V < h := by omega
-          simp [h1, h2', h3, a1, a2]; omega
+          simp [h1, h2', h3, a1, a2] <;> omega
         · have a1 : D < h := by omega
           have a2 : V < h := by omega
-          simp [h1, h2', h3, a1, a2]; omega
+          simp [h1, h2', h3, a1, a2] <;> omega
 
 theorem charsEnd_ge (sh : Nat) (cs : List CharDecl) (hw : charsWF sh cs) :
     sh ≤ charsEndHandle sh cs := by
@@ -364,7 +363,7 @@ theorem charsIndexByHandle_eq (sh si : Nat) (cs : List CharDecl) (hw : charsWF s
               | 0 => simp; omega
               | m + 1 => simp; omega
           omega
-        · have := (lt_iff_lt_countP p1 h (c.nAttrs - 1) x hx).not.mp hxh
+        · have := (not_congr (lt_iff_lt_countP p1 h (c.nAttrs - 1) x hx)).mp hxh
           rw [length_charHandles]; have := two_le_nAttrs c; omega
       rw [hz, if_pos (by omega)]
       simp
